@@ -340,6 +340,46 @@ def shape_table(ctx):
     return n
 
 
+def default_table(ctx):
+    """which algorithm runs when no method is named: observed through the krylov.* hooks (no event = direct solve)"""
+    c = dict(Sizes={3, 5, 6, 9})
+    t, cf = tlcmod.gen_mc(ctx.work, "SolveDefault", "MC_SolveDefault", c, invariants=["IterativeOnlyWhenLarge", "CgOnlyHermitian"])
+    dot = os.path.join(ctx.work, "sd.dot")
+    ctx.model_check(t, cf, workers=4, dump_dot=dot, label="default-method table", timeout=300)
+    nodes, _, _ = tlcmod.parse_dot(dot)
+    os.remove(dot)
+    g = torch.Generator().manual_seed(9)
+    n = 0
+    for st in nodes.values():
+        dense, nn_, hermA, hasM = bool(st["dense"]), int(st["n"]), bool(st["hermA"]), bool(st["hasM"])
+        n += 1
+        ctx.case(key=("default", dense, nn_, hermA, hasM))
+        Amat, _, _ = make_matrix("spd" if hermA else "nonherm", nn_, (), torch.float64, g)
+        A = make_op("dense" if dense else "mvrmv", Amat, hermA)
+        B = torch.randn(nn_, 2, generator=g, dtype=torch.float64)
+        E = M = None
+        if hasM:
+            Q = rand_unitary(nn_, (), torch.float64, g)
+            Mm = (Q * torch.linspace(0.8, 1.2, nn_, dtype=torch.float64)) @ Q.T
+            M = make_op("dense" if dense else "mvrmv", Mm, True)
+            E = -(torch.rand(2, generator=g, dtype=torch.float64) + 0.5)
+        seen = []
+        vh.set_sink(lambda ev, f: seen.append(f["method"]) if ev == "krylov.ret" else None)
+        try:
+            with warnings.catch_warnings():
+                warnings.simplefilter("ignore")
+                with torch.no_grad():
+                    xitorch.linalg.solve(A, B, E, M)
+        finally:
+            vh.set_sink(None)
+        got = seen[0] if seen else "exactsolve"
+        if got != st["pred"]["fwd"]:
+            ctx.violation("solve/default-method", "solve without a method on a %s %s operator with %d unknowns%s ran %s, the documentation's table says %s"
+                          % ("dense" if dense else "matrix-free", "Hermitian" if hermA else "non-Hermitian", nn_, " and M" if hasM else "", got, st["pred"]["fwd"]),
+                          {"dense": dense, "n": nn_, "hermA": hermA, "hasM": hasM})
+    return n
+
+
 def run(ctx):
     thorough = ctx.tier == "thorough"
     rng = random.Random(ctx.seed)
@@ -355,6 +395,7 @@ def run(ctx):
         t, cf = tlcmod.gen_mc(ctx.work, "IterSolve", "MC_IS_dev_" + name, c, invariants=INVS)
         ctx.expect_violation(t, cf, inv=inv, label="deviation " + name, workers=4, timeout=300)
     nshape = shape_table(ctx)
+    ndef = default_table(ctx)
     # code -> spec
     traces = []
     cases = case_list(thorough, rng)
@@ -373,7 +414,7 @@ def run(ctx):
     # all methods agree with each other: follows from agreement with the common dense reference (checked per case)
     nret = sum(1 for t in clean if t["ev"][-1]["a"] == "ret")
     ctx.samples.append(clean[3])
-    ctx.replayed = nshape
+    ctx.replayed = nshape + ndef
     ctx.notes.update(executions=len(clean), returned=nret, warned=sum(1 for t in clean if t["ev"][-1]["a"] == "ret" and t["ev"][-1]["warned"]),
                      shape_cases=nshape, iter_events=sum(1 for t in clean for e in t["ev"] if e["a"] == "iter"))
     ctx.assumptions += [
